@@ -104,7 +104,13 @@ class FakeTransport(asyncio.DatagramTransport):
         self.net.on_send(self.host, self, bytes(data), addr)
 
     def close(self):
+        if self.closed:
+            return
         self.closed = True
+        # like asyncio's selector transports: the protocol hears about it on the next loop iteration
+        proto = getattr(self, 'protocol', None)
+        if proto is not None:
+            self.net.loop.call_soon(proto.connection_lost, None)
 
     def is_closing(self):
         return self.closed
@@ -225,6 +231,7 @@ class Sim(contextlib.ExitStack):
                 proto = AsyncListener(engine.zc)
                 tr = FakeTransport(sim.net, host, fam, idx)
                 proto.connection_made(tr)
+                tr.protocol = proto
                 engine.protocols.append(proto)
                 wt = make_wrapped_transport(tr)
                 engine.readers.append(wt)
